@@ -36,7 +36,12 @@ impl FormalArgs {
         self.1.is_some()
     }
 
-    /// Evaluate a set of call arguments for a given call.
+    /// Evaluate a set of call arguments for a given call of a built-in
+    /// function or mixin.
+    ///
+    /// Built-in functions that have a single parameter in Sass, but need
+    /// to pass on a css call with any arguments, are declared with a
+    /// rest parameter that may be given by name.
     ///
     /// Returns a Scope that is a sub-scope to the given `scope`.
     pub fn eval_call(
@@ -44,13 +49,25 @@ impl FormalArgs {
         decl: ScopeRef,
         call: Call,
     ) -> Result<ResolvedArgs> {
-        Ok(ResolvedArgs::new(self.eval(decl, call.args)?, call.scope))
+        Ok(ResolvedArgs::new(
+            self.do_eval(decl, call.args, true)?,
+            call.scope,
+        ))
     }
 
     /// Evaluate a set of call arguments for these formal arguments.
     ///
     /// Returns a Scope that is a sub-scope to the given `scope`.
     pub fn eval(&self, scope: ScopeRef, args: CallArgs) -> Result<ScopeRef> {
+        self.do_eval(scope, args, false)
+    }
+
+    fn do_eval(
+        &self,
+        scope: ScopeRef,
+        args: CallArgs,
+        named_rest: bool,
+    ) -> Result<ScopeRef> {
         let mut args = args;
         let argscope = ScopeRef::sub(scope);
         if !self.is_varargs() {
@@ -87,9 +104,14 @@ impl FormalArgs {
             }
         }
         if let Some(va_name) = &self.1 {
+            let named = if named_rest {
+                args.only_named(va_name)
+            } else {
+                None
+            };
             argscope.define(
                 va_name.clone(),
-                args.only_named(va_name).unwrap_or_else(|| args.into()),
+                named.unwrap_or_else(|| args.into()),
             )?;
         } else {
             args.check_no_named()?;
